@@ -21,6 +21,14 @@ type Schedule struct {
 	TimerMS   int   `json:"timer_ms,omitempty"`   // MaxFlushLatency of every table
 	MinMS     int   `json:"min_ms,omitempty"`
 	Sorted    bool  `json:"sorted,omitempty"` // memory cap configured: forced flushes may sort
+	// OneTable[i] names the only table that the i-th entry of FlushAt flushes
+	// ("" or missing: all tables). Tables of one stream then sit at different
+	// positions, as they do in production where each table has its own timer.
+	OneTable []string `json:"one_table,omitempty"`
+	// PinTimer sets MinFlushLatency to 1h (when no timer schedule is drawn) so
+	// that zenodb's adaptive re-arming (10x the last flush duration) does not
+	// flush the other tables a few ms after a forced flush
+	PinTimer bool `json:"pin_timer,omitempty"`
 }
 
 // C03Case compares two schedules over the same points.
@@ -71,6 +79,14 @@ func genSchedule(t *rapid.T, n int, label string) Schedule {
 	s.Sorted = rapid.IntRange(0, 3).Draw(t, label+".sorted") == 0
 	sort.Ints(s.FlushAt)
 	sort.Ints(s.RestartAt)
+	if s.TimerMS == 0 && rapid.Bool().Draw(t, label+".pin") {
+		s.PinTimer = true
+	}
+	if len(s.FlushAt) > 0 && len(s.FlushAt) < 10 && rapid.IntRange(0, 2).Draw(t, label+".onetable") == 0 {
+		for i := range s.FlushAt {
+			s.OneTable = append(s.OneTable, rapid.SampledFrom([]string{"", "ta", "tb"}).Draw(t, fmt.Sprintf("%s.ot%d", label, i)))
+		}
+	}
 	return s
 }
 
@@ -132,6 +148,9 @@ func runSchedule(schema *h.Schema, pts []h.Point, s *Schedule, now int64, prefix
 	for i := range sc.Tables {
 		sc.Tables[i].MaxFlushNS = int64(s.TimerMS) * 1e6
 		sc.Tables[i].MinFlushNS = int64(s.MinMS) * 1e6
+		if s.PinTimer && s.TimerMS == 0 {
+			sc.Tables[i].MinFlushNS = int64(3600e9)
+		}
 	}
 	conf := h.DBConf{}
 	if s.Sorted {
@@ -164,8 +183,15 @@ func runSchedule(schema *h.Schema, pts []h.Point, s *Schedule, now int64, prefix
 			if err := db.Quiesce(); err != nil {
 				return err
 			}
-			for k := 0; k < count(s.FlushAt, i); k++ {
-				db.Flush()
+			for k, at := range s.FlushAt {
+				if at != i {
+					continue
+				}
+				if k < len(s.OneTable) && s.OneTable[k] != "" && sc.Table(s.OneTable[k]) != nil {
+					db.Z.VerifFlushTable(s.OneTable[k])
+				} else {
+					db.Flush()
+				}
 			}
 		}
 		if contains(s.SleepAt, i) {
